@@ -62,3 +62,45 @@ pub fn check_drops(e: &Engine, ids: impl Iterator<Item = u32>) {
 pub fn fmt_list<T: std::fmt::Debug>(v: &[T]) -> String {
     format!("{:?}", v).replace(' ', "")
 }
+
+/// a participant of a scenario: a harness thread or a coroutine
+pub enum Part {
+    T(usize),
+    C(may::coroutine::JoinHandle<()>),
+}
+
+pub fn spawn_part<F: FnOnce() + Send + 'static>(e: &'static Engine, kind: char, f: F) -> Part {
+    match kind {
+        'T' => Part::T(e.spawn("thread", f)),
+        'C' => Part::C(go!(f)),
+        _ => unreachable!(),
+    }
+}
+
+/// Ok / Err(true) = ended by the Cancel panic / Err(false) = another panic
+pub fn join_part(e: &'static Engine, p: Part) -> Result<(), bool> {
+    match p {
+        Part::T(t) => {
+            e.join(t);
+            Ok(())
+        }
+        Part::C(h) => match h.join() {
+            Ok(()) => Ok(()),
+            Err(p) => Err(p.downcast_ref::<generator::Error>().is_some()),
+        },
+    }
+}
+
+pub fn cancel_part(p: &Part) {
+    if let Part::C(h) = p {
+        unsafe { h.coroutine().cancel() };
+    }
+}
+
+pub fn parts_name(parts: &[(char, &str)]) -> String {
+    parts.iter().map(|(k, o)| format!("{}{}", k, o)).collect::<Vec<_>>().join("_")
+}
+
+pub fn needs_rt(parts: &[(char, &str)]) -> bool {
+    parts.iter().any(|(k, _)| *k == 'C')
+}
